@@ -7,6 +7,7 @@ import (
 	"fmt"
 	"hash/fnv"
 	"os"
+	"runtime"
 	"strings"
 	"testing"
 	"time"
@@ -109,6 +110,15 @@ func runOnce(t *testing.T, w *World, prop, tier string, cfg simrt.Config) (*simr
 	var env *Env
 	cfg.MaxSteps = w.MaxSteps
 	cfg.MaxSimTime = w.MaxSimTime
+	// real-time watchdog per run: a run that does not finish is infrastructure
+	// trouble (exit 2), never a verdict
+	wd := time.AfterFunc(10*time.Minute, func() {
+		buf := make([]byte, 1<<20)
+		n := runtime.Stack(buf, true)
+		fmt.Fprintf(os.Stderr, "worker: run %d of world %s did not finish within 10 minutes of real time; goroutines:\n%s\n", curIdx, w.Name, buf[:n])
+		os.Exit(2)
+	})
+	defer wd.Stop()
 	res := simrt.Run(t, cfg, func(s *simrt.Sim) {
 		env = &Env{S: s, Prop: prop, Tier: tier, Idx: curIdx}
 		setupEnv(env)
